@@ -25,7 +25,7 @@ func zzEntry(kind int) *proto.WriteRequest {
 }
 
 func zzOpen(m *zzKV) DB {
-	d, err := NewDB("zz", 1, &zzFactory{m}, 0, &zzClock{0})
+	d, err := NewDB("zz", 1, &zzFactory{kv: m}, 0, &zzClock{0})
 	vAssert("open-ok", err == nil)
 	return d
 }
